@@ -15,7 +15,7 @@ are finished, stored next outbound number = highest number sent + 1 (induction o
 """
 import z3
 
-from driver import Property, Task
+from driver import Bounded, Property, Task
 from pyvc.core import And, Eq, Implies, Not, Or, SBool, SInt, _t
 from pyvc.interp import Config
 import session_common as sc
@@ -115,6 +115,13 @@ def exit_clauses(I, post_outcome):
     g = I.ctx.ghost
     return [("exit." + n, c) for n, c in g["S"]()] + [
         ("journal.no_duplicate_error", post_outcome != "raise:DuplicateSeqNoError")]
+
+
+def send_fault_harness(I):
+    """send_msg whose drain() raises (peer reset): the frame went to the transport, so S must survive the exception -
+    the number stays consumed (a later sender must not get it again)."""
+    I.ctx.ghost["drain_mode"] = "fault"
+    return send_harness(I)
 
 
 def send_harness(I):
@@ -220,7 +227,9 @@ def replay_case(task, vc):
     """schedule replay of the resend finding: the real _process_resend on a journal of three application messages,
     while it is suspended in should_replay() another task sends a new message through the same connection."""
     if task.name != "_process_resend":
-        return None
+        # every other handler: the controlled scheduler looks for a failing schedule of the real coroutines (scenarios
+        # without ResendRequest handling, whose known finding would otherwise answer for everything)
+        return {"family": "c14_sched", "case": {"decisions": 16, "scenarios": PLAIN_SCENARIOS, "first": True}}
     case = {"pre": {"st": 17, "role": 1, "sender": "S", "target": "T", "nout": 5, "nin": 3, "was_active": True, "H": 30,
                     "maxrs": 0, "L": 0.0, "R": None, "writer": True, "reader": True},
             "op": "process_resend", "args": {}, "msg": {"type": "2", "tags": [["8", "FIX.4.4"], ["7", "2"], ["16", "0"]]},
@@ -232,6 +241,8 @@ def replay_case(task, vc):
 def violates(rp, obs):
     """new messages must leave with distinct, strictly increasing numbers in wire order, every frame journaled without
     a duplicate error, stored next number = highest number sent + 1."""
+    if rp.get("family") == "c14_sched" or rp["obligation"].startswith("bounded."):
+        return bool(obs.get("violations"))
     if "harness_error" in obs or "post" not in obs:
         return False
     p = obs["post"]
@@ -287,6 +298,7 @@ FUNCS = [CONN + "." + f for f in ("send_msg", "_state_set", "_process_message", 
 
 TASKS = [
     Task("send_msg", send_harness, c14_cfg(), [CONN + ".send_msg"]),
+    Task("send_msg[transport_fault]", send_fault_harness, c14_cfg(), [CONN + ".send_msg"]),
     Task("_process_message", dispatcher_harness, c14_cfg({CONN + "._process_resend": ic.contract_process_resend}),
          FUNCS, timeout_ms=20000),
     Task("_process_resend", resend_harness, resend_cfg(), [CONN + "._process_resend"], timeout_ms=20000),
@@ -296,6 +308,19 @@ TASKS = [
 for _t_ in TASKS:
     _t_.cover = False  # no path witnesses (schedules are not replayed path by path); feasibility is checked per branch
 
+PLAIN_SCENARIOS = ["three_senders", "senders_transport_fault", "sender_heartbeat", "sender_reader_testrequest",
+                   "sender_reader_appmsg", "initial_logon_logout", "acceptor_logon_sender", "reader_gap_sender",
+                   "four_senders", "sender_heartbeat_reader", "three_senders_transport_fault", "reader_logout_sender",
+                   "test_request_sender"]
+
+SCHED = Bounded(
+    "schedules_controlled_scheduler", "c14_sched", {"decisions": 16}, {"decisions": 40},
+    "the real coroutines (send_msg, heartbeat tick, _process_message on TestRequest / Heartbeat / application message / "
+    "Logon / Logout / gap / ResendRequest) driven by hand through every schedule of 2-4 tasks over the suspension points "
+    "(drain: paused or not, FIFO wake-up, optional ConnectionResetError; hooks always a scheduling point), 14 scenarios, "
+    "exhaustive up to 16 (thorough: 40) decision points per run - on the unchanged tree every scenario is exhausted "
+    "below that bound; wire order, journal rows and stored counter checked when all tasks have finished",
+    known_inputs=lambda v: {"resend": "resend" in v.get("scenario", "")})
 PROPERTY = Property(
     "C14", TASKS,
     assumptions=[
@@ -316,6 +341,7 @@ PROPERTY = Property(
     trusted_base=["pyvc", "z3 5.1.0"],
     functions=FUNCS,
     syntactic=syntactic,
+    bounded=[SCHED],
     notes="one sequential proof per handler covers all interleavings: shared state is havocked under the rely condition "
           "at every suspension point (unbounded number of other senders and of their messages)",
 )
